@@ -39,6 +39,17 @@ def __getattr__(name):
 
     @func.register(da.Array)
     def _(*args, **kwargs):
+        # scipy applies ``s`` without ``axes`` to the last len(s) axes,
+        # dask's wrapper to the first ones: be explicit.
+        if (
+            name.endswith("n")
+            and len(args) == 1
+            and kwargs.get("s") is not None
+            and kwargs.get("axes") is None
+        ):
+            ndim = args[0].ndim
+            kwargs["axes"] = tuple(range(ndim - len(kwargs["s"]), ndim))
+
         wrapped_func = da.fft.fft_wrap(_fft_func)
         return wrapped_func(*args, **kwargs)
 
